@@ -20,11 +20,16 @@ arguments at a site that constructs an owner class.
 """
 import ast
 import os
+import re
 
 ROLE_CLASSES = ["Glyph", "Contour", "Point", "Component", "Anchor", "Image", "Guideline", "Lib", "Layer", "LayerSet",
                 "Info", "Kerning", "Groups", "Features", "UnicodeData", "ImageSet", "DataSet"]
 OWNER_CANDIDATES = {"Font", "LayerSet", "Layer", "Glyph", "Contour"}
 KNOWN = set(ROLE_CLASSES) | {"Font"}
+# classes DEFINED inside defcon as subclasses of a role class (`class _ReloadedInfo(Info)` in objects/font.py):
+# name -> the role class it derives from; filled by `scan_repo` before the modules are scanned.  Instantiating one is a
+# hard-coded instantiation of that role class.
+DERIVED = {}
 
 
 
@@ -76,6 +81,8 @@ class ModuleScan(object):
                     for a in n.names:
                         if a.name in KNOWN:
                             al[a.asname or a.name] = a.name
+                        elif a.name in DERIVED:
+                            al[a.asname or a.name] = DERIVED[a.name]
                         elif (a.asname or a.name) in al:
                             del al[a.asname or a.name]
         return al
@@ -85,6 +92,8 @@ class ModuleScan(object):
         for n in self.tree.body:
             if isinstance(n, ast.ClassDef) and n.name in KNOWN:
                 mod_alias[n.name] = n.name
+            elif isinstance(n, ast.ClassDef) and n.name in DERIVED:
+                mod_alias[n.name] = DERIVED[n.name]
         mod_alias = self.aliases_in([n for n in self.tree.body if isinstance(n, (ast.ImportFrom, ast.Import))], mod_alias)
         # names rebound at module level to something else are not tracked: look for assignments to KNOWN names
         for n in ast.walk(self.tree):
@@ -307,7 +316,7 @@ class ModuleScan(object):
             for i, f in enumerate(group):
                 sid = base_id + suffix + ("#%d" % (i + 1) if len(group) > 1 else "")
                 self.sites.append(dict(id=sid, owner=owner, cls=f["cls"], kwargs=f["kwargs"], line=f["line"],
-                                       file=self.rel, guard=f["kind"] == "guard", nargs=f["nargs"], star=f["star"]))
+                                       end_line=f["end_line"], col=f["col"], file=self.rel, guard=f["kind"] == "guard", nargs=f["nargs"], star=f["star"]))
 
     def scan_loose(self, node, alias, owner):
         found = []
@@ -368,7 +377,8 @@ class ModuleScan(object):
             if ce is not None:
                 if ce[0] == "unknown":
                     self.err(n, "isinstance against an unrecognised class expression")
-                found.append(dict(kind="guard", cls=ce, kwargs=[], line=n.lineno, col=n.col_offset, nargs=0, star=False))
+                found.append(dict(kind="guard", cls=ce, kwargs=[], line=n.lineno, end_line=n.end_lineno or n.lineno,
+                                  col=n.col_offset, nargs=0, star=False))
             elif _mentions_class(n.args[1]):
                 self.err(n, "isinstance against an unrecognised class expression")
             return
@@ -396,10 +406,11 @@ class ModuleScan(object):
                 kwargs.append((k.arg, ("other", ast.unparse(v))))
         star = any(k.arg is None for k in n.keywords) or any(isinstance(a, ast.Starred) for a in n.args)
         positional = len(n.args)
-        found.append(dict(kind="call", cls=ce, kwargs=kwargs, line=n.lineno, col=n.col_offset, nargs=positional, star=star))
+        found.append(dict(kind="call", cls=ce, kwargs=kwargs, line=n.lineno, end_line=n.end_lineno or n.lineno,
+                          col=n.col_offset, nargs=positional, star=star))
 
 
-def scan_repo(repo):
+def scan_repo(repo, with_entries=False):
     root = os.path.join(repo, "Lib", "defcon")
     if not os.path.isdir(os.path.join(root, "objects")):
         raise ExtractError("missing source directory %s/objects" % root)
@@ -411,9 +422,31 @@ def scan_repo(repo):
             if fn.endswith(".py"):
                 files.append(os.path.relpath(os.path.join(d, fn), root))
     files.sort()
+    sources = dict((rel, open(os.path.join(root, rel)).read()) for rel in files)
+    # subclasses of the role classes defined inside defcon itself (to a fixed point, by name)
+    DERIVED.clear()
+    bases = {}
+    for rel in files:
+        for n in ast.walk(ast.parse(sources[rel])):
+            if isinstance(n, ast.ClassDef) and n.name not in KNOWN:
+                for b in n.bases:
+                    bn = b.id if isinstance(b, ast.Name) else (b.attr if isinstance(b, ast.Attribute) else None)
+                    if bn is not None:
+                        bases.setdefault(n.name, []).append(bn)
+    grew = True
+    while grew:
+        grew = False
+        for name, bs in sorted(bases.items()):
+            if name in DERIVED:
+                continue
+            for b in bs:
+                if b in KNOWN or b in DERIVED:
+                    DERIVED[name] = b if b in KNOWN else DERIVED[b]
+                    grew = True
+                    break
     classes, sites = {}, []
     for rel in files:
-        ms = ModuleScan(rel, open(os.path.join(root, rel)).read())
+        ms = ModuleScan(rel, sources[rel])
         ms.run()
         for k, v in ms.classes.items():
             if k in classes:
@@ -423,7 +456,207 @@ def scan_repo(repo):
     ids = [s["id"] for s in sites]
     if len(set(ids)) != len(ids):
         raise ExtractError("duplicate site id: %s" % sorted(i for i in ids if ids.count(i) > 1))
+    if with_entries:
+        return classes, sites, scan_entries(sources, sites)
     return classes, sites
+
+
+# ----------------------------------------------------------------------------------------
+# Entry points that accept an object (C15, `foreign_objects_converted`)
+# ----------------------------------------------------------------------------------------
+
+ENTRY_RE = re.compile(r"^(insert|append)[A-Z]")
+# the list setters hand every element to an entry point
+LIST_SETTERS = [("Glyph", "_set_anchors"), ("Glyph", "_set_guidelines"), ("Font", "_set_guidelines")]
+# receivers other than `self` an entry point may forward to: attribute of self / local bound to `self.<attr>` -> class
+RECEIVER_OWNER = {"_glyphSet": "Layer", "font": "Font"}
+
+
+def _object_param(fn):
+    """the parameter that carries the object: `insertAnchor(self, index, anchor)` -> "anchor"; `*args` -> "*" """
+    a = fn.args
+    if a.vararg is not None:
+        return "*"
+    names = [x.arg for x in a.args][1:]
+    m = ENTRY_RE.match(fn.name)
+    want = fn.name[len(m.group(1)):]
+    want = want[0].lower() + want[1:]
+    if want in names:
+        return want
+    return None
+
+
+def _passes(call, P):
+    """does the call hand the object itself over (as a positional / keyword argument, or by *args)?"""
+    if P == "*":
+        return any(isinstance(x, ast.Starred) and isinstance(x.value, ast.Name) and x.value.id == "args" for x in call.args)
+    for x in list(call.args) + [k.value for k in call.keywords]:
+        if isinstance(x, ast.Name) and x.id == P:
+            return True
+    return False
+
+
+def classify_entry(rel, cls, fn, site_ids, methods):
+    """-> ("adopt",) | ("convertUnless", guard id, factory id) | ("rebuild", factory id) | ("delegate", entry id)"""
+    def err(msg, node=None):
+        raise ExtractError("%s:%s: entry point %s.%s: %s" % (rel, getattr(node or fn, "lineno", "?"), cls, fn.name, msg))
+    P = _object_param(fn)
+    if P is None:
+        err("cannot tell which parameter carries the object")
+    names = {P}
+    # aliases `source = glyph`
+    rebinds = []
+    for n in ast.walk(fn):
+        if isinstance(n, ast.Assign):
+            for t in n.targets:
+                for x in ast.walk(t):
+                    if isinstance(x, ast.Name) and x.id == P and isinstance(x.ctx, ast.Store):
+                        rebinds.append(n)
+            if len(n.targets) == 1 and isinstance(n.targets[0], ast.Name) and isinstance(n.value, ast.Name) \
+                    and n.value.id == P and n.targets[0].id != P:
+                names.add(n.targets[0].id)
+        elif isinstance(n, (ast.AugAssign, ast.AnnAssign, ast.For, ast.NamedExpr, ast.Delete)):
+            targets = n.targets if isinstance(n, ast.Delete) else [n.target]
+            for t in targets:
+                for x in ast.walk(t):
+                    if isinstance(x, ast.Name) and x.id == P and isinstance(x.ctx, (ast.Store, ast.Del)):
+                        err("the object parameter is rebound in an unrecognised way", n)
+    # the conversion shape: `if not isinstance(P, <cls>): P = self.<factory>(kw=P)`
+    convert = None
+    for st in fn.body:
+        if isinstance(st, ast.If) and isinstance(st.test, ast.UnaryOp) and isinstance(st.test.op, ast.Not):
+            c = st.test.operand
+            if isinstance(c, ast.Call) and isinstance(c.func, ast.Name) and c.func.id == "isinstance" and len(c.args) == 2 \
+                    and isinstance(c.args[0], ast.Name) and c.args[0].id == P:
+                if st.orelse or len(st.body) != 1 or convert is not None:
+                    err("unrecognised conversion shape", st)
+                b = st.body[0]
+                if not (isinstance(b, ast.Assign) and len(b.targets) == 1 and isinstance(b.targets[0], ast.Name)
+                        and b.targets[0].id == P and isinstance(b.value, ast.Call) and _self_attr(b.value.func) is not None
+                        and _passes(b.value, P)):
+                    err("unrecognised conversion shape", st)
+                convert = (b, _self_attr(b.value.func))
+    for n in rebinds:
+        if convert is None or n is not convert[0]:
+            err("the object parameter is rebound in an unrecognised way", n)
+    guards = [n for n in ast.walk(fn) if isinstance(n, ast.Call) and isinstance(n.func, ast.Name)
+              and n.func.id == "isinstance" and len(n.args) == 2 and isinstance(n.args[0], ast.Name) and n.args[0].id in names]
+    if len(guards) != (1 if convert else 0):
+        err("isinstance test of the object outside the conversion shape")
+    stores, copies, forwards = [], [], []
+    for n in ast.walk(fn):
+        if not isinstance(n, ast.Call) or not isinstance(n.func, ast.Attribute):
+            continue
+        if not any(_passes(n, q) for q in names):
+            continue
+        f = n.func
+        recv = f.value
+        if f.attr in ("insert", "append") and _self_attr(recv) is not None and _self_attr(recv).startswith("_"):
+            stores.append(n)                      # self._anchors.insert(index, anchor)
+        elif f.attr == "copyDataFromGlyph" and isinstance(recv, ast.Name):
+            copies.append((n, recv.id))           # dest.copyDataFromGlyph(glyph)
+        elif isinstance(recv, ast.Name) and recv.id == "self":
+            if convert is not None and n is convert[0].value:
+                continue
+            forwards.append((n, cls, f.attr))     # self.insertAnchor(len(..), anchor)
+        elif _self_attr(recv) in RECEIVER_OWNER:
+            forwards.append((n, RECEIVER_OWNER[_self_attr(recv)], f.attr))      # self._glyphSet.insertGlyph(glyph, ..)
+        elif isinstance(recv, ast.Name) and recv.id in RECEIVER_OWNER:
+            forwards.append((n, RECEIVER_OWNER[recv.id], f.attr))               # font.appendGuideline(*args, **kwargs)
+        else:
+            err("the object is handed to an unrecognised receiver", n)
+    if stores:
+        if len(stores) != 1 or copies:
+            err("the object is stored more than once")
+        if convert is not None:
+            factory = "%s.%s" % (cls, convert[1])
+            if factory not in site_ids:
+                err("conversion through %s, which is not a creation site" % factory)
+            return ("convertUnless", "%s.%s?isinstance" % (cls, fn.name), factory)
+        return ("adopt",)
+    if convert is not None:
+        err("converted but never stored")
+    if copies:
+        # dest = self.<maker>(..); dest.copyDataFromGlyph(P); return dest
+        if len(copies) != 1:
+            err("copied more than once")
+        if forwards:
+            err("the object is copied and handed on as well", forwards[0][0])
+        dest = copies[0][1]
+        makers = [n for n in ast.walk(fn) if isinstance(n, ast.Assign) and len(n.targets) == 1
+                  and isinstance(n.targets[0], ast.Name) and n.targets[0].id == dest]
+        if len(makers) != 1 or not (isinstance(makers[0].value, ast.Call) and _self_attr(makers[0].value.func) is not None):
+            err("the object the data are copied into is not made by a method of self")
+        if any(_passes(makers[0].value, q) for q in names):
+            err("the object is handed to the maker of its copy")
+        maker = _self_attr(makers[0].value.func)
+        factory = "%s.%s" % (cls, maker)
+        if factory not in site_ids:
+            inner = set()
+            for n in ast.walk(methods.get((cls, maker)) or ast.Module(body=[], type_ignores=[])):
+                if isinstance(n, ast.Call) and _self_attr(n.func) is not None and ("%s.%s" % (cls, _self_attr(n.func))) in site_ids:
+                    inner.add("%s.%s" % (cls, _self_attr(n.func)))
+            if len(inner) != 1:
+                err("cannot tell which creation site %s uses" % factory)
+            factory = inner.pop()
+        return ("rebuild", factory)
+    fw = [x for x in forwards if ENTRY_RE.match(x[2])]
+    if len(fw) == 1 and len(forwards) == 1:
+        return ("delegate", "%s.%s" % (fw[0][1], fw[0][2]))
+    err("the object is neither stored, copied nor forwarded to another entry point")
+
+
+def classify_list_setter(rel, cls, fn):
+    """`for x in value: self.appendX(x)` -> ("delegate", "<cls>.appendX")"""
+    params = [x.arg for x in fn.args.args][1:]
+    found = []
+    for n in ast.walk(fn):
+        if isinstance(n, ast.For) and isinstance(n.target, ast.Name) and isinstance(n.iter, ast.Name) and n.iter.id in params:
+            if len(n.body) == 1 and isinstance(n.body[0], ast.Expr) and isinstance(n.body[0].value, ast.Call):
+                c = n.body[0].value
+                if isinstance(c.func, ast.Attribute) and isinstance(c.func.value, ast.Name) and c.func.value.id == "self" \
+                        and ENTRY_RE.match(c.func.attr) and len(c.args) == 1 and isinstance(c.args[0], ast.Name) \
+                        and c.args[0].id == n.target.id and not c.keywords:
+                    found.append("%s.%s" % (cls, c.func.attr))
+                    continue
+            raise ExtractError("%s:%d: list setter %s.%s: unrecognised loop" % (rel, n.lineno, cls, fn.name))
+    if len(found) != 1:
+        raise ExtractError("%s:%d: list setter %s.%s: unrecognised shape" % (rel, fn.lineno, cls, fn.name))
+    return ("delegate", found[0])
+
+
+def scan_entries(sources, sites):
+    site_ids = set(s["id"] for s in sites)
+    methods = {}
+    trees = {}
+    for rel in sorted(sources):
+        if not rel.startswith("objects" + os.sep):
+            continue
+        trees[rel] = ast.parse(sources[rel])
+        for c in trees[rel].body:
+            if isinstance(c, ast.ClassDef):
+                for fn in c.body:
+                    if isinstance(fn, (ast.FunctionDef, ast.AsyncFunctionDef)):
+                        methods[(c.name, fn.name)] = fn
+    entries = []
+    for rel in sorted(trees):
+        for c in trees[rel].body:
+            if not isinstance(c, ast.ClassDef):
+                continue
+            for fn in c.body:
+                if not isinstance(fn, (ast.FunctionDef, ast.AsyncFunctionDef)):
+                    continue
+                if ENTRY_RE.match(fn.name):
+                    how = classify_entry(rel, c.name, fn, site_ids, methods)
+                elif (c.name, fn.name) in LIST_SETTERS:
+                    how = classify_list_setter(rel, c.name, fn)
+                else:
+                    continue
+                entries.append(dict(id="%s.%s" % (c.name, fn.name), owner=c.name, how=how, file=rel, line=fn.lineno))
+    missing = [x for x in LIST_SETTERS if ("%s.%s" % x) not in set(e["id"] for e in entries)]
+    if missing:
+        raise ExtractError("list setters not found: %s" % missing)
+    return entries
 
 
 # ----------------------------------------------------------------------------------------
@@ -454,7 +687,13 @@ def _cls(x):
     return ".hard " + _q(x[1])
 
 
-def emit_lean(classes, sites):
+def _how(h):
+    if h[0] == "adopt":
+        return ".adopt"
+    return ".%s %s" % (h[0], " ".join(_q(x) for x in h[1:]))
+
+
+def emit_lean(classes, sites, entries=()):
     out = []
     out.append("/- GENERATED by harness/extract_classwiring.py from $DEFCON_REPO/Lib/defcon on every run of ./check C15.")
     out.append("   Do not edit: the obligations of Props/C15.lean are re-checked over exactly this table. -/")
@@ -494,7 +733,12 @@ def emit_lean(classes, sites):
     out.append(",\n".join(items))
     out.append("]")
     out.append("")
-    out.append("def wiring : Wiring := { classes := classes, sites := sites }")
+    out.append("def entries : List Entry := [")
+    out.append(",\n".join("  -- %s:%d\n  { id := %s, owner := %s, how := %s }" % (
+        e["file"], e["line"], _q(e["id"]), _q(e["owner"]), _how(e["how"])) for e in entries))
+    out.append("]")
+    out.append("")
+    out.append("def wiring : Wiring := { classes := classes, sites := sites, entries := entries }")
     out.append("")
     out.append("end DefconModel.Gen.ClassWiring")
     return "\n".join(out) + "\n"
@@ -506,8 +750,8 @@ def strip_lines(text):
 
 
 def extract(repo, lean_dir):
-    classes, sites = scan_repo(repo)
-    text = emit_lean(classes, sites)
+    classes, sites, entries = scan_repo(repo, with_entries=True)
+    text = emit_lean(classes, sites, entries)
     path = os.path.join(lean_dir, "DefconModel", "Gen", "ClassWiring.lean")
     os.makedirs(os.path.dirname(path), exist_ok=True)
     old = open(path).read() if os.path.exists(path) else None
@@ -516,7 +760,7 @@ def extract(repo, lean_dir):
         with open(path, "w") as f:
             f.write(text)
         changed.append("Gen/ClassWiring.lean")
-    info = dict(table="Gen/ClassWiring.lean", classes=len(classes), sites=len(sites),
+    info = dict(table="Gen/ClassWiring.lean", classes=len(classes), sites=len(sites), entries=len(entries),
                 hardcoded=[s["id"] for s in sites if s["cls"][0] == "hard"],
                 same_class=[s["id"] for s in sites if s["cls"][0] == "sameClass"],
                 obligations=0)
@@ -525,5 +769,5 @@ def extract(repo, lean_dir):
 
 if __name__ == "__main__":
     import sys
-    c, s = scan_repo(sys.argv[1] if len(sys.argv) > 1 else os.environ.get("DEFCON_REPO", "/repo"))
-    sys.stdout.write(emit_lean(c, s))
+    c, s, e = scan_repo(sys.argv[1] if len(sys.argv) > 1 else os.environ.get("DEFCON_REPO", "/repo"), with_entries=True)
+    sys.stdout.write(emit_lean(c, s, e))
